@@ -369,7 +369,7 @@ func runC01(w *World, r *Report) {
 	}
 
 	// role consistency
-	r.rule("funds-roles", "checkpoint funds → inflow; pourFunds(issuer, tip|ancestor, &in, &out) with constant roles; checkHasSufficientfunds(&in,&out) drains out from in; pourFunds: issuer→out, receiver→in, same amount", 8)
+	r.rule("funds-roles", "checkpoint funds → inflow; pourFunds(issuer, tip|ancestor, &in, &out) with constant roles; checkHasSufficientfunds(&in,&out) drains out from in; pourFunds: issuer→out, receiver→in, same amount", 6)
 	if fundsCall != nil {
 		_, fa := callArgs(fundsCall)
 		in, out := pathOf(fa[0]), pathOf(fa[1])
@@ -403,6 +403,13 @@ func runC01(w *World, r *Report) {
 				if pathOf(recv) == in && s != nil && sameVal(sa[0], s) {
 					ckOK = true
 				}
+			}
+		}
+		{
+			li := ComputeLocks(w, acctScope)
+			for _, c := range vl.calls(cn("accountant", "*AccountingBook", "readAddressFundsFromStorage"), dagM("AncestorsWalker")) {
+				held := li.At(c)
+				r.check(held.Has(abMux, "W"), "funds-roles", "validateLeaf/"+shortCallee(c)+"-under-ledger-lock", lineOf(w, c), "checkpoint read and ancestor walk of a validation see one consistent ledger (exclusive ledger lock held by every caller)", "lockset "+held.String())
 			}
 		}
 		r.check(ckOK, "funds-roles", "validateLeaf/checkpoint→in", w.Pos(fn.Pos()), "checkpointed funds of the issuer are supplied to the inflow side", "no in.Supply(readAddressFundsFromStorage(issuer))")
